@@ -298,9 +298,12 @@ func (ts *tokenScanner) Cur() Token {
 		tok.Text = ts.s.TokenText()
 	case DelimIdent:
 		tok.Type = IDENT
-		// strip quotes
+		// strip quotes (an unterminated literal at the very end of the input
+		// consists of the opening quote only)
 		tok.Text = ts.s.TokenText()
-		tok.Text = tok.Text[1 : len(tok.Text)-1]
+		if len(tok.Text) >= 2 {
+			tok.Text = tok.Text[1 : len(tok.Text)-1]
+		}
 	default:
 		tok.Text = ts.s.TokenText()
 		if kw, isKw := keywords[strings.ToUpper(ts.s.TokenText())]; isKw {
@@ -319,7 +322,7 @@ func (ts *tokenScanner) Cur() Token {
 			}
 		} else {
 			tok.Type = STR
-			if ts.cur == String {
+			if ts.cur == String && len(tok.Text) >= 2 {
 				// strip quotes
 				tok.Text = tok.Text[1 : len(tok.Text)-1]
 			}
